@@ -1,7 +1,7 @@
 \* repaired model, sequential, larger: empty chain at start, two accounts, a failing write
-CONSTANTS NTx = 4 Kind <- KindS Sender <- SenderS Nonce <- NonceS NAccs = 2 Accs <- MCAccs StartEmpty = TRUE
+CONSTANTS NTx = 3 Kind <- KindS Sender <- SenderS Nonce <- NonceS NAccs = 1 Accs <- MCAccs StartEmpty = TRUE
   Max = 3 NPushers = 1 NConsumers = 0 Batch = 2
-  MaxPush = 5 MaxBlocks = 2 MaxFail = 1 MaxCrash = 1 MaxClose = 1 MaxPops = 2 MaxExecErr = 0 MaxFatal = 0
+  MaxPush = 5 MaxBlocks = 2 MaxFail = 0 MaxCrash = 1 MaxClose = 1 MaxPops = 2 MaxExecErr = 0 MaxFatal = 0
   DedupFix = TRUE OverflowFix = TRUE Mutant = "none"
 INIT Init
 NEXT Next
